@@ -124,6 +124,7 @@ fn gen_level(rng: &mut Rng) -> f64 {
     match rng.below(100) {
         0..=11 => *rng.pick(&[1.0, 2.0, 0.5, 10.0, 100.0, 0.25, 4.0, 0.01]),
         12..=14 => rng.log_uniform(1e-12, 1e12),
+        15 => rng.log_uniform(1e-25, 1e-14),
         _ => rng.log_uniform(1e-4, 1e4),
     }
 }
@@ -175,6 +176,11 @@ pub fn generate(rng: &mut Rng, tier: Tier) -> Plan {
     };
     let tod = if settle.is_some() { gen_tod(rng) } else { None };
     let float_only = rng.chance(0.3);
+    let far_decade: Option<f64> = if rng.chance(0.015) {
+        Some(*rng.pick(&[10.0, -10.0, 8.0, -8.0, 12.0, -12.0]))
+    } else {
+        None
+    };
     for i in 1..n {
         let parent = match shape {
             0 => rng.below(i as u64) as usize,
@@ -190,6 +196,11 @@ pub fn generate(rng: &mut Rng, tier: Tier) -> Plan {
             Num::F(Fx::new(gen_level(rng)))
         } else {
             gen_quote_num(rng)
+        };
+        // a market whose quotes all sit in one far decade: crosses reach 1e+-100 and beyond
+        let num = match far_decade {
+            Some(e) => num.with_value(10f64.powf(e + rng.f64_in(-0.5, 0.5))),
+            None => num,
         };
         quotes.push(Quote {
             lhs: ccys[a].clone(),
@@ -274,6 +285,15 @@ pub fn generate(rng: &mut Rng, tier: Tier) -> Plan {
                 let num = if same_level {
                     // same value to the bit, different variables / kind
                     gen_quote_num(rng).with_value(q.num.value())
+                } else if rng.chance(0.05) {
+                    // the smallest possible move: the adjacent double
+                    let v = q.num.value();
+                    let nv = f64::from_bits(if rng.chance(0.5) {
+                        v.to_bits() + 1
+                    } else {
+                        v.to_bits() - 1
+                    });
+                    q.num.with_value(nv)
                 } else if float_only || rng.chance(0.6) {
                     // same kind, new value
                     q.num.with_value(gen_level(rng))
@@ -794,6 +814,16 @@ fn probe(m: &Market, ctx: &str, step: usize, obs: &mut Obs) -> Result<(), Fail> 
 
     let mut kind_seen: Option<u8> = None;
     let mut h = Fnv::new();
+    // if ANY cross of the market is beyond 1e+-90, intermediate reciprocals of the
+    // triangulation may under/overflow in their second-order terms: no Hessian verdicts
+    let hessian_off = {
+        let sum_abs_log: f64 = model
+            .quotes
+            .iter()
+            .map(|q| q.num.value().abs().log10().abs())
+            .sum();
+        sum_abs_log > 90.0
+    };
     for i in 0..n {
         let paths = model.paths_from(i);
         for j in 0..n {
@@ -1006,6 +1036,13 @@ fn probe(m: &Market, ctx: &str, step: usize, obs: &mut Obs) -> Result<(), Fail> 
                 }
             }
             if order < 2 {
+                continue;
+            }
+            // far outside any sensible regime the cubes that second derivatives of a
+            // reciprocal need under- or overflow: values and gradients only
+            let extreme = |x: f64| x != 0.0 && !(1e-90..=1e90).contains(&x.abs());
+            if extreme(cross.x) || qd.iter().any(|(q, _)| extreme(q.v)) || hessian_off {
+                obs.count("skipped.hessian_in_extreme_regime");
                 continue;
             }
 
